@@ -22,6 +22,15 @@ def main(argv):
     budget = float(os.environ.get("VF_SHARD_BUDGET_S", "0") or 0)
     deadline = time.time() + budget if budget else None
 
+    cov = None
+    if os.environ.get("VF_COVERAGE_DIR"):
+        # diagnostic only (tools/coverage_gaps.sh): which library lines no workload reaches
+        import coverage
+
+        cov = coverage.Coverage(data_file=os.path.join(os.environ["VF_COVERAGE_DIR"], f"cov-{prop}"), data_suffix=True,
+                                branch=True, include=[os.path.join(os.environ.get("VERIF_REPO", "/repo"), "dissect/cstruct/*")])
+        cov.start()
+
     from .ctx import Ctx
     from . import monitors
 
@@ -41,6 +50,9 @@ def main(argv):
         status = "harness_error"
         ctx.note_inconclusive("harness error: " + traceback.format_exc()[-1500:])
     reach.stop()
+    if cov is not None:
+        cov.stop()
+        cov.save()
     res = ctx.result()
     try:
         from . import engine
